@@ -57,47 +57,45 @@ GRULE = ("spec: TLC explores Flow.tla / Parallel.tla (templates transcribed step
 
 
 def c13(c):
-    """Output parses, type-checks without the cff tag, no directive left; the tool never panics."""
+    """Output parses, type-checks without the cff tag, no directive left; the tool never panics.  Every
+    invocation is an event of spec/GenPipeline.tla; the atoms 'type-checks' and 'a directive call remains'
+    are observed with the Go tool chain and an AST scan (cmd/gendiff)."""
     cff = c.build_cff()
     tool = c.build_go("./cmd/gendiff", "gendiff", tags="")
     rounds = 1 if c.quick else 4
     n = 0
     for r in range(rounds):
         root, pk, jobs = G.make_corpus(c, 120 if c.quick else 300, 80 if c.quick else 200, 0, seed_off=100 + r)
+        log = G.GenLog(c, "c13-%d" % r)
         for mode, extra in (("base", ()), ("source-map", ()), ("base", ("-auto-instrument",)), ("source-map", ("-auto-instrument",))):
             c.log("cff %s %s" % (mode, " ".join(extra)))
-            problems = G.generate(c, cff, root, pk, mode, extra)
-            for pkg, kind, text in problems:
-                if kind == "crash":
-                    c.violation("C13", "cff died with a Go panic (%s %s) on package %s:\n%s" % (mode, extra, pkg, text[-1500:]),
-                                dict(kind="gen-corpus", seed_off=100 + r, mode=mode, extra=list(extra)))
-                else:
-                    c.violation("C14", "cff rejected well-formed programs (%s):\n%s" % (pkg, text[-800:]), dict(kind="gen-corpus", seed_off=100 + r))
-                    c.inconclusive.append("corpus rejected by cff: " + text[-300:])
-            if problems:
-                continue
-            ok, err = G.typecheck(c, root)
-            if not ok:
-                c.violation("C13", "generated package does not type-check without the cff tag (%s %s):\n%s" % (mode, " ".join(extra), err[-1500:]),
-                            dict(kind="gen-corpus", seed_off=100 + r, mode=mode, extra=list(extra)))
             for pkg in pk:
-                for f in G.gendiff(c, tool, root, pkg):
-                    if f["prop"] == "C13":
-                        c.violation("C13", "%s: %s (%s)" % (f["src"], f["what"], mode), dict(kind="gen-corpus", seed_off=100 + r, mode=mode, file=f["src"]))
+                log.run(cff, root, pkg, mode, extra, typecheck=True, scan_tool=tool)
             n += sum(len(v) for v in pk.values())
-            c.cov["evaluations"] += sum(len(v) for v in pk.values())
+        # ill-formed input: the tool must answer with positioned diagnostics, not with a crash
+        bad = os.path.join(root, "pbad")
+        os.makedirs(bad, exist_ok=True)
+        open(os.path.join(bad, "bad.go"), "w").write(
+            "//go:build cff\n\npackage pbad\n\nimport (\n\t\"context\"\n\n\t\"go.uber.org/cff\"\n)\n\n"
+            "// Bad consumes a type nobody provides.\nfunc Bad(ctx context.Context) error {\n\tvar out string\n"
+            "\treturn cff.Flow(ctx, cff.Results(&out), cff.Task(func(i int) string { return \"\" }))\n}\n")
+        log.run(cff, root, "pbad", "base", (), expectok=False)
+        log.judge("corpus %d" % r)
         if len(c.cov["samples"]) < 2:
             p = next(iter(pk.values()))[0]
             c.cov["samples"].append(dict(program={k: v for k, v in p.items() if k != "style"}, style=p["style"]))
     import known_probes
     known_probes.check_known(c, cff, ("C13",))
     c.cov["programs"] = n
+    c.cov["evaluations"] = n
     c.cov["disagreements_checked"] = n
     c.cov["distinct_nontrivial"] = n
     c.assumptions += ["'type-checks' is decided by the Go type checker (go build without the cff tag)",
                       "inputs are the renderer's feature space, not all Go programs"]
     return c.finish("exploration", GRULE + "; one evaluation = one program in one mode; non-trivial = every program (each has "
-                    "at least one task and distinct structure by construction of the seeded generator)", distinct_nontrivial=n)
+                    "at least one task and distinct structure by construction of the seeded generator); the verdict per invocation is "
+                    "taken by the monitor spec/GenPipeline.tla from the recorded event (exit status, crash, diagnostics, written paths, "
+                    "type-check result, surviving directive calls)", distinct_nontrivial=n)
 
 
 def bt_exprs(c, leaves):
@@ -162,44 +160,33 @@ def c16(c):
         if len(fs) >= 3:
             d = os.path.join(root, pkg)
             os.rename(os.path.join(d, fs[1]), os.path.join(d, fs[1][:-3] + ".v2.go"))
-    before = G.snapshot(root)
+    # a test file: its output is <name>_gen_test.go
+    for pkg in pk:
+        open(os.path.join(root, pkg, "extra_test.go"), "w").write(
+            "//go:build cff\n\npackage %s\n\nimport (\n\t\"context\"\n\n\t\"go.uber.org/cff\"\n)\n\n"
+            "// extraFlow lives in a test file.\nfunc extraFlow(ctx context.Context) (r int, err error) {\n"
+            "\terr = cff.Flow(ctx, cff.Results(&r), cff.Task(func() int { return 1 }))\n\treturn\n}\n" % pkg)
+    log = G.GenLog(c, "c16")
     for mode in ("base", "source-map"):
-        problems = G.generate(c, cff, root, pk, mode)
-        if problems:
-            c.inconclusive.append("cff failed on the rendered corpus: " + problems[0][2][-300:])
-            continue
-        after = G.snapshot(root)
-        expected_new = set()
         for pkg in pk:
-            for f in G.src_files(root, pkg):
-                expected_new.add(os.path.join(pkg, G.gen_name(f)))
-        for pth, hsh in after.items():
-            if pth not in before and pth not in expected_new:
-                c.violation("C16", "cff wrote an undocumented path: %s (%s)" % (pth, mode), dict(kind="paths", path=pth, mode=mode))
-            if pth in before and before[pth] != hsh and pth not in expected_new:
-                c.violation("C16", "cff modified a file that is not its output: %s (%s)" % (pth, mode), dict(kind="paths", path=pth, mode=mode))
-        for pth in expected_new:
-            if pth not in after:
-                c.violation("C16", "documented output path missing: %s (%s)" % (pth, mode), dict(kind="paths", path=pth, mode=mode))
-        for pkg in pk:
+            ev = log.run(cff, root, pkg, mode)
+            if ev["rc"] != 0:
+                continue
             for f in G.gendiff(c, tool, root, pkg):
                 if f["prop"] == "C16":
                     c.violation("C16", "%s: %s (%s)" % (f["src"], f["what"], mode), dict(kind="textdiff", file=f["src"], mode=mode))
                 elif f["prop"] == "HARNESS":
                     c.inconclusive.append(f["what"])
         c.cov["evaluations"] += sum(len(v) for v in pk.values())
-    # -file=IN=OUT writes exactly OUT
-    pkg = next(iter(pk))
-    f0 = G.src_files(root, pkg)[0]
-    alt = os.path.join(root, pkg, "custom_out.go")
-    snap1 = G.snapshot(root)
-    r = subprocess.run([cff, "-quiet", "-file=%s=%s" % (f0, alt), "vgen/" + pkg], cwd=root, env=GOENV, capture_output=True, text=True, timeout=300)
-    snap2 = G.snapshot(root)
-    changed = sorted(p for p in snap2 if snap1.get(p) != snap2[p])
-    if r.returncode != 0:
-        c.inconclusive.append("cff -file=IN=OUT failed: " + (r.stdout + r.stderr)[-300:])
-    elif changed != [os.path.join(pkg, "custom_out.go")]:
-        c.violation("C16", "-file=IN=OUT changed %s instead of exactly the given output path" % changed, dict(kind="paths", changed=changed))
+    # -file selections: exactly the selected files' outputs are written, at the given paths
+    rng = random.Random(c.seed)
+    for pkg in pk:
+        files = G.src_files(root, pkg)
+        log.run(cff, root, pkg, "base", files=[files[0]], alt={files[0]: "custom_out.go"})
+        if len(files) >= 3:
+            sel = rng.sample(files, 3)
+            log.run(cff, root, pkg, "base", files=sel, alt={sel[1]: "other_out.go"})
+    log.judge("output paths")
     c.assumptions += ["truth tables are computed with go/build/constraint over the tags {cff,a,b}"]
     return c.finish("model_checking", "spec: TLC checks FlipCorrect for every constraint expression with <=3 (thorough: <=4) leaves; impl: every "
                     "enumerated expression mentioning cff is rendered as //go:build, as // +build lines and as both, processed by the real "
@@ -208,57 +195,42 @@ def c16(c):
 
 
 def c17(c):
-    """Determinism: repeated runs, fresh processes, file alone vs whole package, both modes."""
+    """Determinism: the monitor GenPipeline.tla learns, per (package, file, mode, flags), the content the tool
+    produces and records any later observation that differs: repeated runs in fresh processes, each file alone
+    (-file=IN=OUT) vs the whole package, base and source-map, with and without -auto-instrument."""
     cff = c.build_cff()
     n = 0
     for r in range(1 if c.quick else 3):
         root, pk, jobs = G.make_corpus(c, 100 if c.quick else 300, 60 if c.quick else 200, 0, seed_off=300 + r)
+        log = G.GenLog(c, "c17-%d" % r)
+        rng = random.Random(c.seed + r)
         for mode in ("base", "source-map"):
-            ref = None
-            for rep in range(3):
-                problems = G.generate(c, cff, root, pk, mode)
-                if problems:
-                    c.inconclusive.append("cff failed: " + problems[0][2][-300:])
-                    break
-                snap = {p: h for p, h in G.snapshot(root).items() if p.endswith("_gen.go")}
-                if ref is None:
-                    ref = snap
-                elif snap != ref:
-                    diff = sorted(p for p in snap if ref.get(p) != snap[p])
-                    c.violation("C17", "repeated generation (%s, run %d) produced different bytes for %s" % (mode, rep + 1, diff[:5]),
-                                dict(kind="determinism", mode=mode, files=diff[:20], seed_off=300 + r))
-            if ref is None:
-                continue
-            # each file alone, written to a side path, must equal the whole-package output
-            for pkg in pk:
-                files = G.src_files(root, pkg)
-                rng = random.Random(c.seed + r)
-                pick = files if not c.quick else rng.sample(files, min(len(files), 12))
-                for f in pick:
-                    alt = os.path.join(c.scratch, "alone_gen.go")
-                    if os.path.exists(alt):
-                        os.remove(alt)
-                    rr = subprocess.run([cff, "-quiet"] + (["-genmode", mode] if mode != "base" else []) +
-                                        ["-file=%s=%s" % (f, alt), "vgen/" + pkg],
-                                        cwd=root, env=GOENV, capture_output=True, text=True, timeout=300)
-                    if rr.returncode != 0 or not os.path.exists(alt):
-                        c.inconclusive.append("cff -file failed on %s: %s" % (f, (rr.stdout + rr.stderr)[-300:]))
-                        continue
-                    a = open(alt, "rb").read()
-                    b = open(os.path.join(root, pkg, G.gen_name(f)), "rb").read()
-                    n += 1
-                    # the only legitimate difference: source-map line directives name the output file
-                    if mode == "source-map":
-                        a = a.replace(b"alone_gen.go", G.gen_name(f).encode())
-                    if a != b:
-                        c.violation("C17", "output for %s differs when the file is processed alone (-file) vs with its package (%s)" % (f, mode),
-                                    dict(kind="determinism-file", file=f, mode=mode, seed_off=300 + r))
-            c.cov["evaluations"] += sum(len(v) for v in pk.values()) * 3
+            for extra in ((), ("-auto-instrument",)) if not c.quick or mode == "base" else ((),):
+                for pkg in pk:
+                    for rep in range(3):
+                        ev = log.run(cff, root, pkg, mode, extra)
+                        if ev["rc"] != 0:
+                            break
+                    files = G.src_files(root, pkg)
+                    pick = files if not c.quick else rng.sample(files, min(len(files), 10))
+                    for f in pick:
+                        log.run(cff, root, pkg, mode, extra, files=[f], alt={f: "alone_out.go"})
+                    # two files selected together, in reversed order on the command line
+                    if len(files) >= 2:
+                        a, b = rng.sample(files, 2)
+                        log.run(cff, root, pkg, mode, extra, files=[b, a])
+                    if os.path.exists(os.path.join(root, pkg, "alone_out.go")):
+                        os.remove(os.path.join(root, pkg, "alone_out.go"))
+        n += log.judge("determinism corpus %d" % r)
         if len(c.cov["samples"]) < 2:
-            c.cov["samples"].append(dict(package_files={k: G.src_files(root, k)[:5] for k in pk}))
-    c.cov["distinct_nontrivial"] = n + c.cov["evaluations"]
-    return c.finish("exploration", GRULE + "; each package generated 3 times in fresh processes per mode and every (sampled) file once more "
-                    "alone with -file=IN=OUT; byte comparison; non-trivial = every comparison", distinct_nontrivial=n + c.cov["evaluations"])
+            e = log.events[len(log.events) // 2]
+            c.cov["samples"].append({k: e[k] for k in ("pkg", "mode", "flags", "selected", "outputs", "rc", "written")})
+    c.cov["evaluations"] = n
+    c.cov["distinct_nontrivial"] = c.cov.get("generator_functions_learnt", 0)
+    return c.finish("model_checking", GRULE + "; one evaluation = one invocation of cff (whole package three times per mode/flags in fresh processes, "
+                    "files alone with -file=IN=OUT, pairs of files in reversed order); every invocation is an event of spec/GenPipeline.tla "
+                    "(validated by GenTrace.tla, TLC), whose monitor fixes the content per (package, file, mode, flags) at first observation; "
+                    "distinct_nontrivial = number of such keys learnt", distinct_nontrivial=c.cov.get("generator_functions_learnt", 0))
 
 
 REGISTRY.update({"C13": c13, "C16": c16, "C17": c17})
